@@ -1,1 +1,187 @@
-/- C05 — property theorems (to be written) -/
+/-
+  C05 — populate (z << a) offers exactly a's coordinates and keeps only what was written.
+  Property theorems only; helpers in FtProofs/Lemmas/PopLemmas.lean.
+-/
+import FtProofs.Lemmas.PopLemmas
+set_option linter.unusedSectionVars false
+set_option linter.unusedSimpArgs false
+namespace Ft
+open StrictTotal
+
+section
+variable {κ π β : Type} [LT κ] [DecidableRel (α := κ) (· < ·)] [DecidableEq κ] [StrictTotal κ]
+variable (mk : π) (rm : Bool → π → Bool) (body : κ → π → β → π)
+
+/-- **the loop as coded** (`a_pos` advanced by a bisect in the suffix, `get_payload_pos`
+    shortcut, creation at `a_pos`, removal at `bisect_left`, `a_pos -= 1`) **is the declarative
+    merge**, and yields exactly the source's coordinates in order, each with the destination's
+    current payload (the default if absent) and the source's payload — for every sorted
+    destination, every sorted source and every loop body. -/
+theorem populate_eq_spec (z : Fib κ π) (b : Fib κ β) (hz : Sorted z) (hb : Sorted b) :
+    popLoop mk rm body z 0 b = (popSpec mk rm body z b, popYields mk z b) := by
+  have := popLoop_inv mk rm body b [] z (by simpa using hz) hb (fun x hx => by cases hx)
+  simpa using this
+
+/-- **structure of the result**: coordinates of the destination outside the source are untouched;
+    a source coordinate leaves the payload the body produced, unless the removal rule drops it -/
+theorem populate_struct (z : Fib κ π) (b : Fib κ β) (hz : Sorted z) (hb : Sorted b) :
+    Sorted (popLoop mk rm body z 0 b).1 ∧
+    ∀ c, lookup (popLoop mk rm body z 0 b).1 c = popExpect mk rm body z b c := by
+  rw [populate_eq_spec mk rm body z b hz hb]
+  exact ⟨popSpec_sorted mk rm body z b hz hb, popSpec_lookup mk rm body z b hz hb⟩
+
+/-- the executable structural spec accepts the loop's result … -/
+theorem populate_specB_sound [DecidableEq π] (z : Fib κ π) (b : Fib κ β) (hz : Sorted z) (hb : Sorted b) :
+    popSpecB mk rm body z b (popLoop mk rm body z 0 b).1 = true := by
+  obtain ⟨h1, h2⟩ := populate_struct mk rm body z b hz hb
+  unfold popSpecB
+  rw [Bool.and_eq_true, List.all_eq_true]
+  exact ⟨(sortedB_iff _).2 h1, fun c _ => by simpa using h2 c⟩
+
+/-- … and accepts nothing else: a sorted list with the expected lookups is the result.
+    (So evaluating the spec on the implementation's destination and comparing it with the
+    model's destination are the same test.) -/
+theorem populate_specB_complete [DecidableEq π] (z : Fib κ π) (b : Fib κ β) (hz : Sorted z) (hb : Sorted b)
+    (out : Fib κ π) (h : popSpecB mk rm body z b out = true) : out = (popLoop mk rm body z 0 b).1 := by
+  obtain ⟨h1, h2⟩ := populate_struct mk rm body z b hz hb
+  unfold popSpecB at h
+  rw [Bool.and_eq_true, List.all_eq_true] at h
+  obtain ⟨hs, hall⟩ := h
+  have hso := (sortedB_iff _).1 hs
+  -- both lists are sorted and have the same lookup function on all relevant keys
+  have hlk : ∀ c, lookup out c = lookup (popLoop mk rm body z 0 b).1 c := by
+    intro c
+    rw [h2 c]
+    by_cases hk : HasKey out c ∨ HasKey z c ∨ HasKey b c
+    · have : c ∈ out.map (·.1) ++ z.map (·.1) ++ b.map (·.1) := by
+        simp only [List.mem_append, List.mem_map]
+        rcases hk with ⟨x, hx, rfl⟩ | ⟨x, hx, rfl⟩ | ⟨x, hx, rfl⟩
+        · exact Or.inl (Or.inl ⟨x, hx, rfl⟩)
+        · exact Or.inl (Or.inr ⟨x, hx, rfl⟩)
+        · exact Or.inr ⟨x, hx, rfl⟩
+      simpa using hall c this
+    · have h1' : ¬ HasKey out c := fun h => hk (Or.inl h)
+      have h2' : ¬ HasKey z c := fun h => hk (Or.inr (Or.inl h))
+      have h3' : ¬ HasKey b c := fun h => hk (Or.inr (Or.inr h))
+      simp [popExpect, lookup_none_of_not_hasKey h1', lookup_none_of_not_hasKey h2',
+        lookup_none_of_not_hasKey h3']
+  apply sorted_ext_of_fn (F := fun c => (lookup out c).getD mk) out _ hso h1
+  · intro r hr; rw [lookup_of_sorted_mem hso hr]; rfl
+  · intro r hr; rw [hlk r.1, lookup_of_sorted_mem h1 hr]; rfl
+  · intro c
+    rw [← hasCoord_iff, ← hasCoord_iff, hasCoord_iff_lookup, hasCoord_iff_lookup, hlk c]
+
+end
+
+/-! ### tree level: content, residue, well-formedness, nesting -/
+section
+variable {κ ν β : Type} [LT κ] [DecidableRel (α := κ) (· < ·)] [DecidableEq κ] [StrictTotal κ] [DecidableEq ν]
+
+/-- **content after the loop** = previous content overridden by what the body wrote: at a
+    coordinate the source does not present nothing changes; at a presented coordinate the values
+    are those of the payload the body left (a dropped payload reads as the default everywhere,
+    which is what it held).  Holds at the leaf rank and at every interior rank, hence nested
+    populate loops (a `body` that is itself a `populate` one level down) compose level by level. -/
+theorem populate_val (dflt : ν) (d : Nat) (body : κ → Tree κ ν d → β → Tree κ ν d)
+    (z : Tree κ ν (d + 1)) (src : Fib κ β) (hz : WF (d + 1) z) (hb : Sorted src) (c : κ) (q : List κ) :
+    val dflt (d + 1) (populate dflt d body z src).1 (c :: q) =
+      match lookup src c with
+      | none => val dflt (d + 1) z (c :: q)
+      | some bp => val dflt d (body c ((lookup (show List (κ × Tree κ ν d) from z) c).getD (defaultTree dflt d)) bp) q := by
+  have hl := (populate_struct (defaultTree dflt d) (rmOf dflt d) body
+    (show List (κ × Tree κ ν d) from z) src hz.sorted hb).2 c
+  simp only [val]
+  show (match lookup (popLoop (defaultTree dflt d) (rmOf dflt d) body (show List (κ × Tree κ ν d) from z) 0 src).1 c with
+    | some s => val dflt d s q | none => dflt) = _
+  rw [hl]
+  unfold popExpect
+  cases hs : lookup src c with
+  | none => rfl
+  | some bp =>
+    simp only [popAt]
+    by_cases hr : rmOf dflt d (lookup (show List (κ × Tree κ ν d) from z) c).isNone
+        (body c ((lookup (show List (κ × Tree κ ν d) from z) c).getD (defaultTree dflt d)) bp) = true
+    · simp only [hr, if_true]
+      -- a dropped payload reads as the default
+      cases d with
+      | zero =>
+        have : (show ν from body c ((lookup (show List (κ × Tree κ ν 0) from z) c).getD (defaultTree dflt 0)) bp) = dflt := by
+          simpa [rmOf, rmLeaf] using hr
+        simp only [val]; exact this.symm
+      | succ d' =>
+        have hnil : (show List (κ × Tree κ ν d') from
+            body c ((lookup (show List (κ × Tree κ ν (d' + 1)) from z) c).getD (defaultTree dflt (d' + 1))) bp) = [] := by
+          have := hr
+          simp only [rmOf, rmFiber, Bool.and_eq_true] at this
+          exact List.isEmpty_iff.1 this.2
+        cases q with
+        | nil => rfl
+        | cons c' q' =>
+          simp only [val]
+          rw [show lookup (show List (κ × Tree κ ν d') from
+            body c ((lookup (show List (κ × Tree κ ν (d' + 1)) from z) c).getD (defaultTree dflt (d' + 1))) bp) c' = none from by
+              rw [hnil]; rfl]
+    · simp only [hr, Bool.false_eq_true, if_false]
+
+/-- **no residue**: an element that the loop created and kept is not a default leaf / not an
+    element-less sub-fiber -/
+theorem populate_no_residue (dflt : ν) (d : Nat) (body : κ → Tree κ ν d → β → Tree κ ν d)
+    (z : Tree κ ν (d + 1)) (src : Fib κ β) (hz : WF (d + 1) z) (hb : Sorted src) (c : κ) (bp : β)
+    (hsrc : lookup src c = some bp) (hnew : lookup (show List (κ × Tree κ ν d) from z) c = none) (p : Tree κ ν d)
+    (hp : lookup (populate dflt d body z src).1 c = some p) : rmOf dflt d true p = false := by
+  have hl := (populate_struct (defaultTree dflt d) (rmOf dflt d) body
+    (show List (κ × Tree κ ν d) from z) src hz.sorted hb).2 c
+  have hp' : lookup (popLoop (defaultTree dflt d) (rmOf dflt d) body (show List (κ × Tree κ ν d) from z) 0 src).1 c = some p := hp
+  rw [hl] at hp'
+  simp only [popExpect, hsrc, popAt, hnew, Option.isNone_none, Option.getD_none] at hp'
+  by_cases hr : rmOf dflt d true (body c (defaultTree dflt d) bp) = true
+  · simp [hr] at hp'
+  · simp only [hr, Bool.false_eq_true, if_false, Option.some.injEq] at hp'
+    rw [← hp']; simpa using hr
+
+/-- **well-formedness** is kept when the body keeps the offered payload well-formed -/
+theorem populate_wf (dflt : ν) (d : Nat) (body : κ → Tree κ ν d → β → Tree κ ν d)
+    (hbody : ∀ c cur bp, WF d cur → WF d (body c cur bp))
+    (z : Tree κ ν (d + 1)) (src : Fib κ β) (hz : WF (d + 1) z) (hb : Sorted src) :
+    WF (d + 1) (populate dflt d body z src).1 := by
+  obtain ⟨h1, h2⟩ := populate_struct (defaultTree dflt d) (rmOf dflt d) body
+    (show List (κ × Tree κ ν d) from z) src hz.sorted hb
+  refine ⟨h1, ?_⟩
+  intro e he
+  have hl := h2 e.1
+  have hle : lookup (popLoop (defaultTree dflt d) (rmOf dflt d) body (show List (κ × Tree κ ν d) from z) 0 src).1 e.1 = some e.2 :=
+    lookup_of_sorted_mem h1 he
+  rw [hle] at hl
+  unfold popExpect at hl
+  cases hs : lookup src e.1 with
+  | none =>
+    rw [hs] at hl
+    exact hz.sub _ (lookup_mem hl.symm)
+  | some bp =>
+    rw [hs] at hl
+    simp only [popAt] at hl
+    split at hl
+    · cases hl
+    · simp only [Option.some.injEq] at hl
+      rw [hl]
+      apply hbody
+      cases hz' : lookup (show List (κ × Tree κ ν d) from z) e.1 with
+      | none => exact wf_defaultTree dflt d
+      | some s => exact hz.sub _ (lookup_mem hz')
+
+end
+
+/-! ### non-vacuity (tests): a destination with an explicit default, overlapping source -/
+section
+private def zEx : Fib Int Int := [(1, 5), (3, 0), (6, 2)]
+private def srcEx : Fib Int Int := [(0, 1), (3, 4), (6, 9), (7, 1)]
+example : Sorted zEx := (sortedB_iff zEx).1 (by decide)
+example : Sorted srcEx := (sortedB_iff srcEx).1 (by decide)
+-- body: accumulate at 0 and 3, reset to default at 6, leave 7 alone; leaf removal rule
+private def bodyEx : Int → Int → Int → Int := fun c cur bp => if c = 6 then 0 else if c = 7 then cur else cur + bp
+private def rmEx : Bool → Int → Bool := fun _ v => v == 0
+#guard (popLoop 0 rmEx bodyEx zEx 0 srcEx).1 == [(0, 1), (1, 5), (3, 4)]
+#guard (popLoop 0 rmEx bodyEx zEx 0 srcEx).2 == [(0, 0, 1), (3, 0, 4), (6, 2, 9), (7, 0, 1)]
+#guard popSpecB 0 rmEx bodyEx zEx srcEx [(0, 1), (1, 5), (3, 4)] && !popSpecB 0 rmEx bodyEx zEx srcEx [(0, 1), (1, 5), (3, 4), (6, 0)]
+end
+end Ft
